@@ -44,4 +44,4 @@ DELIVERABLES - write these files into {out}/ :
   patch.diff   - `git diff` of your source change only (made in {wt}; NOT including the demo file), applicable with `git apply` on the unchanged tree;
   the demo test file (e.g. {sid.lower().replace('-', '_')}_demo_test.go) - name it uniquely so it collides with nothing;
   meta.json    - {{"property": "{pid}", "summary": "<what the change does, which file/function>", "breaks": "<which clause of the property is violated and how>", "needs": "<what is needed for the violation to manifest>", "demo": {{"copy": [["<demo file name in {out}>", "<path relative to repo root where it must be placed>"]], "run": "<exact go test command, run from the repo root, that fails with the patch and passes without>"}}, "ran": ["<commands you ran and their outcomes>"]}}
-Before finishing, verify yourself: (a) with the patch: build ok, touched packages' existing tests pass, demo FAILS; (b) `git stash`/reverse the patch: demo PASSES. Leave the worktree with the patch applied and the demo file in place. In your final answer give a 5-line summary (what, where, why it breaks the property, what it needs, results of your runs).""")
+Before finishing, verify yourself: (a) with the patch: build ok, touched packages' existing tests pass, demo FAILS; (b) reverse the patch with `git apply -R patch.diff` (NEVER `git stash`: the stash is shared between all worktrees of the repository and other agents use it): demo PASSES; then re-apply it. Leave the worktree with the patch applied and the demo file in place. In your final answer give a 5-line summary (what, where, why it breaks the property, what it needs, results of your runs).""")
